@@ -76,6 +76,8 @@ pub struct LoopModel {
     pub name: String,
     /// SIGHUP is process-wide: scenarios that send it run one at a time
     pub single_thread: bool,
+    /// also drive a mirrored world with the same stimuli and compare after every step
+    pub lockstep: bool,
 }
 
 impl LoopModel {
@@ -128,7 +130,12 @@ impl LoopModel {
             if classic { "classic" } else { "enhanced" },
             ["streaming", "faults", "bind-faults", "long-outage", "reloads", "frozen-subscribers"][level.min(5) as usize]
         );
-        Self { n, timeout, classic, events, name, single_thread: level == 4 }
+        Self { n, timeout, classic, events, name, single_thread: level == 4, lockstep: false }
+    }
+    pub fn with_lockstep(mut self) -> Self {
+        self.lockstep = true;
+        self.name = format!("{} lockstep", self.name);
+        self
     }
     pub fn event_name(&self, e: usize) -> String {
         format!("{:?}", self.events[e])
@@ -196,6 +203,8 @@ struct Run<'a> {
     reload_to_verify: Option<(bool, Vec<usize>, Vec<usize>)>,
     /// receivers of frozen subscribers (kept so the channels stay open and full)
     frozen: Vec<tokio::sync::mpsc::Receiver<String>>,
+    /// the mirrored world driven in lock-step (conformance runs only)
+    twin: Option<Twin>,
 }
 
 #[derive(Default, Clone, Debug)]
@@ -370,6 +379,19 @@ impl<'a> Run<'a> {
             }
             let hk = stop == self.next_hk;
             let o = self.rig.advance(stop - vt).await.map_err(|e| Fail::new("MACHINERY", e))?;
+            if let Some(t) = self.twin.as_mut() {
+                // the same timer, at the same instant, in the mirrored world
+                let two = if hk {
+                    Some(t.call(TwinCmd::Housekeeping { at: stop })?)
+                } else if stop % 15 == 0 {
+                    Some(t.call(TwinCmd::Flush { at: stop })?)
+                } else {
+                    None
+                };
+                if let Some(two) = two {
+                    compare(if hk { "housekeeping pass" } else { "flush tick" }, stop, &o, &two, MAX_ADDR)?;
+                }
+            }
             if hk {
                 // The housekeeping interval (period 1000 ms, MissedTickBehavior::Delay) stays on the 1000 ms grid
                 // unless a tick is more than 5 ms late. On that grid it would fall due together with the 15 ms
@@ -630,6 +652,10 @@ impl<'a> Run<'a> {
             self.links[l].established = true;
         }
         let o = self.rig.uplink_send(l, b).await.map_err(|e| Fail::new("MACHINERY", e))?;
+        if let Some(t) = self.twin.as_mut() {
+            let two = t.call(TwinCmd::Uplink { at: now, link: l, bytes: b.to_vec() })?;
+            compare(&format!("datagram {:04x}/{} from the receiver on link {l}", pkt_type(b).unwrap_or(0), b.len()), now, &o, &two, MAX_ADDR)?;
+        }
         self.absorb(&o, false)?;
         Ok(o)
     }
@@ -646,6 +672,10 @@ impl<'a> Run<'a> {
         self.client_known = true;
         self.dirty = true;
         let o = self.rig.client_send(&p).await.map_err(|e| Fail::new("MACHINERY", e))?;
+        if let Some(t) = self.twin.as_mut() {
+            let two = t.call(TwinCmd::Client { at: now, bytes: p.clone() })?;
+            compare(&format!("client datagram of {} bytes", p.len()), now, &o, &two, MAX_ADDR)?;
+        }
         self.absorb(&o, false)
     }
 
@@ -759,11 +789,17 @@ impl<'a> Run<'a> {
                 self.links[l].bind_fail = true;
                 self.links[l].had_bind_fault = true;
                 self.binder.fail.lock().unwrap().push(link_ip(l));
+                if let Some(t) = self.twin.as_mut() {
+                    t.call(TwinCmd::BindFail { link: l, on: true })?;
+                }
                 Ok(())
             }
             Ev::BindOk(l) if l < n => {
                 self.links[l].bind_fail = false;
                 self.binder.fail.lock().unwrap().retain(|ip| *ip != link_ip(l));
+                if let Some(t) = self.twin.as_mut() {
+                    t.call(TwinCmd::BindFail { link: l, on: false })?;
+                }
                 Ok(())
             }
             Ev::Forget => {
@@ -864,6 +900,10 @@ impl<'a> Run<'a> {
     async fn establish(&mut self) -> Result<(), Fail> {
         let mut o = StepOut::default();
         self.rig.settle(&mut o).await.map_err(|e| Fail::new("MACHINERY", e))?;
+        if let Some(t) = self.twin.as_mut() {
+            let two = t.call(TwinCmd::Start { n: self.m.n, timeout: self.m.timeout, classic: self.m.classic })?;
+            compare("start-up (initial housekeeping)", 0, &o, &two, MAX_ADDR)?;
+        }
         self.absorb(&o, false)?;
         self.answer(&o.wire.clone()).await?;
         for _ in 0..8 {
@@ -933,6 +973,7 @@ fn run_path_once(m: &LoopModel, path: &[usize]) -> RunResult {
             pending_reload: None,
             reload_to_verify: None,
             frozen: Vec::new(),
+            twin: if m.lockstep { Some(Twin::spawn()) } else { None },
         };
         let mut fail = None;
         if let Err(f) = run.establish().await {
@@ -1235,4 +1276,178 @@ pub fn replay_for(prop: &str, v: &Value) -> Option<Result<(), String>> {
         }
     }
     replay(&models, v)
+}
+
+// ---------------------------------------------------------------------------------------------
+// Lock-step conformance of the mirrored world against the real loop
+//
+// The world-based checks explore a *mirror* of the select! glue (world.rs). Besides the source-level
+// fingerprint, the mirror is validated behaviourally: the same stimuli, at the same virtual instants,
+// are applied to the real loop and to a world, and after every stimulus what the two put on the wire
+// and hand to the client must agree (random ids masked). The world lives on a thread of its own (its
+// arms block on a runtime of their own, which cannot be done from inside the real loop's runtime).
+
+pub enum TwinCmd {
+    Start { n: usize, timeout: u64, classic: bool },
+    Housekeeping { at: u64 },
+    Flush { at: u64 },
+    Client { at: u64, bytes: Vec<u8> },
+    Uplink { at: u64, link: usize, bytes: Vec<u8> },
+    BindFail { link: usize, on: bool },
+    Stop,
+}
+
+pub struct Twin {
+    tx: std::sync::mpsc::Sender<TwinCmd>,
+    rx: std::sync::mpsc::Receiver<StepOut>,
+    pub steps: u64,
+}
+
+impl Twin {
+    pub fn spawn() -> Twin {
+        let (tx, crx) = std::sync::mpsc::channel::<TwinCmd>();
+        let (otx, rx) = std::sync::mpsc::channel::<StepOut>();
+        std::thread::spawn(move || {
+            use crate::world::{Env, World};
+            let mut env = Env::new();
+            let mut w: Option<World> = None;
+            let conv = |o: crate::world::Out| StepOut { wire: o.wire, client: o.client.into_iter().chain(o.instant).collect() };
+            while let Ok(cmd) = crx.recv() {
+                let out = match cmd {
+                    TwinCmd::Start { n, timeout, classic } => {
+                        let mode = if classic { SchedulingMode::Classic } else { SchedulingMode::Enhanced };
+                        let cfg = DynamicConfig::from_cli(mode, false, false, 32, 3000, timeout);
+                        let (world, out) = World::cold_start(&mut env, n, cfg, T0);
+                        w = Some(world);
+                        conv(out)
+                    }
+                    TwinCmd::Stop => break,
+                    other => {
+                        let Some(w) = w.as_mut() else { break };
+                        match other {
+                            TwinCmd::Housekeeping { at } => {
+                                w.now = T0 + at;
+                                conv(w.arm_housekeeping(&mut env))
+                            }
+                            TwinCmd::Flush { at } => {
+                                w.now = T0 + at;
+                                conv(w.arm_flush(&mut env))
+                            }
+                            TwinCmd::Client { at, bytes } => {
+                                w.now = T0 + at;
+                                conv(w.arm_client(&mut env, &bytes))
+                            }
+                            TwinCmd::Uplink { at, link, bytes } => {
+                                w.now = T0 + at;
+                                conv(w.arm_uplink(&mut env, link, &bytes))
+                            }
+                            TwinCmd::BindFail { link, on } => {
+                                w.bind_fail[link] = on;
+                                StepOut::default()
+                            }
+                            _ => StepOut::default(),
+                        }
+                    }
+                };
+                if otx.send(out).is_err() {
+                    break;
+                }
+            }
+        });
+        Twin { tx, rx, steps: 0 }
+    }
+
+    fn call(&mut self, c: TwinCmd) -> Result<StepOut, Fail> {
+        self.steps += 1;
+        self.tx.send(c).map_err(|_| Fail::new("MACHINERY", "the world twin is gone".into()))?;
+        self.rx.recv_timeout(Duration::from_secs(20)).map_err(|_| Fail::new("MACHINERY", "the world twin did not answer (it panicked?)".into()))
+    }
+}
+
+impl Drop for Twin {
+    fn drop(&mut self) {
+        let _ = self.tx.send(TwinCmd::Stop);
+    }
+}
+
+/// What must agree: per link the sequence of datagrams, with the fields that carry random ids masked.
+fn normalise(o: &StepOut, n: usize) -> (Vec<Vec<Vec<u8>>>, Vec<Vec<u8>>) {
+    let mut per: Vec<Vec<Vec<u8>>> = vec![Vec::new(); n.max(1)];
+    for (l, b) in &o.wire {
+        if *l >= per.len() {
+            continue;
+        }
+        let mut b = b.clone();
+        match pkt_type(&b) {
+            // REG1 / REG2 carry the (random) group id
+            Some(0x9200) | Some(0x9201) => b.truncate(2),
+            // extended keepalive: the connection id (random) at 14..18
+            Some(0x9000) if b.len() >= 18 => {
+                for x in b[14..18].iter_mut() {
+                    *x = 0;
+                }
+            }
+            _ => {}
+        }
+        per[*l].push(b);
+    }
+    let mut c = o.client.clone();
+    c.sort();
+    (per, c)
+}
+
+pub fn compare(what: &str, at: u64, real: &StepOut, twin: &StepOut, n: usize) -> Result<(), Fail> {
+    if normalise(real, n) != normalise(twin, n) {
+        let show = |o: &StepOut| {
+            format!(
+                "wire {:?} client {:?}",
+                o.wire.iter().map(|(l, b)| format!("{l}:{:04x}/{}", pkt_type(b).unwrap_or(0), b.len())).collect::<Vec<_>>(),
+                o.client.iter().map(|b| format!("{:04x}/{}", pkt_type(b).unwrap_or(0), b.len())).collect::<Vec<_>>()
+            )
+        };
+        return Err(Fail::new(
+            "lockstep:mirror-differs-from-the-real-loop",
+            format!("{what} at +{at} ms: the real loop produced {}, the mirrored world {}", show(real), show(twin)),
+        ));
+    }
+    Ok(())
+}
+
+/// Behavioural binding of the mirror (world.rs) to the real loop: lock-step runs over whole plans.
+/// A disagreement is a machinery error: the mirrored explorations cannot be trusted then.
+pub fn run_lockstep(rep: &mut Report, quick: bool) {
+    let plans: Vec<(LoopModel, RealPlan)> = if quick {
+        vec![
+            (LoopModel::new(2, 5000, false, 0).with_lockstep(), RealPlan::Full { depth: 2 }),
+            (LoopModel::new(2, 5000, true, 1).with_lockstep(), RealPlan::Dev { k: 1, depth: 16, default: 0 }),
+        ]
+    } else {
+        vec![
+            (LoopModel::new(2, 5000, false, 0).with_lockstep(), RealPlan::Full { depth: 3 }),
+            (LoopModel::new(2, 5000, true, 0).with_lockstep(), RealPlan::Dev { k: 2, depth: 12, default: 0 }),
+            (LoopModel::new(2, 5000, false, 1).with_lockstep(), RealPlan::Dev { k: 2, depth: 14, default: 0 }),
+            (LoopModel::new(2, 15000, true, 1).with_lockstep(), RealPlan::Dev { k: 1, depth: 30, default: 1 }),
+            (LoopModel::new(3, 5000, false, 1).with_lockstep(), RealPlan::Dev { k: 1, depth: 20, default: 0 }),
+            (LoopModel::new(2, 5000, false, 2).with_lockstep(), RealPlan::Dev { k: 2, depth: 12, default: 0 }),
+            (LoopModel::new(2, 5000, false, 3).with_lockstep(), RealPlan::Dev { k: 1, depth: 60, default: 0 }),
+        ]
+    };
+    let mut sub = Report::new();
+    for (m, plan) in &plans {
+        explore(&mut sub, m, plan, &["lockstep:"], Duration::from_secs(if quick { 30 } else { 900 }));
+    }
+    let runs = sub.traces;
+    let rounds = sub.transitions;
+    for v in sub.violations.drain(..) {
+        if rep.machinery_errors.len() < 3 {
+            rep.machinery_errors.push(format!("binding: {} [{}]", v.message, v.replay));
+        }
+    }
+    rep.machinery_errors.extend(sub.machinery_errors.drain(..));
+    for (k, v) in sub.extra {
+        rep.extra.insert(k, v);
+    }
+    rep.traces += runs;
+    rep.transitions += rounds;
+    rep.set("mirror_validated_in_lock_step", json!({"executions": runs, "settling_rounds": rounds, "what": "every stimulus (timer instant, client datagram, receiver datagram, bind fault) applied to the real loop was applied to the mirrored world at the same virtual instant; after each one the datagrams per link and to the client agreed (group id and connection id masked)"}));
 }
